@@ -419,7 +419,7 @@ def script_to_steps(script: list, coalesce: bool) -> list:
         elif do == 'refuse':
             steps.append({'do': 'refuse', 'n': 1})
         nxt = ev[k + 1]['do'] if k + 1 < len(ev) else ''
-        if not (coalesce and do == 'send' and nxt == 'send'):
+        if not (coalesce and nxt not in ('', 'tick', 'refuse') and do != 'refuse'):
             steps.append({'do': 'sleep', 'ms': 5})      # let the real system run to its next waiting point
     steps.append({'do': 'sleep', 'ms': 1500})
     return steps
@@ -449,10 +449,15 @@ def peerloop_scripts(ck: Check, tier: str, seed: int) -> list:
     rnd = random.Random(seed)
     if tier == 'quick':
         chosen = _pl_enumerate(ck, 1, None, 'all ticks')
+        n_both = len(chosen)
         more = _pl_enumerate(ck, 2, '{150, 3100, 61000}', 'ticks 150/3100/61000')
-        chosen += rnd.sample(more, min(len(more), 800))
+        # always: the pure event sequences (no time passing) on the 9 s session; a seeded sample of the others
+        always = [x for x in more if not any(e[0] == 'tick' for e in x) and all(e[2] == 9000 for e in x if e[1] == 'OPEN')]
+        rest = sorted(set(more) - set(always))
+        chosen += always + rnd.sample(rest, min(len(rest), 500))
     else:
         chosen = _pl_enumerate(ck, 2, None, 'all ticks')
+        n_both = 0
         more = _pl_enumerate(ck, 3, '{150, 3100, 61000}', 'ticks 150/3100/61000')
         chosen += rnd.sample(more, min(len(more), 20000))
     out = []
@@ -464,7 +469,12 @@ def peerloop_scripts(ck: Check, tier: str, seed: int) -> list:
             else f"tick{e['ms']}" if e['do'] == 'tick' else f"teardown{e['code']}" if e['do'] == 'teardown' else e['do']
             for e in script
         )
-        out.append((f'model:{compact}', script_to_steps(script, False), {'horizon_ms': horizon}))
-        if any(a['do'] == 'send' and b['do'] == 'send' for a, b in zip(script, script[1:])):
+        adjacent = any(a['do'] not in ('tick', 'refuse') and b['do'] not in ('tick', 'refuse') for a, b in zip(script, script[1:]))
+        # two concretisations of one environment script: the system is given 5 ms (virtual) to run between two actions, or
+        # consecutive actions happen with nothing in between (one TCP segment, one 100 ms poll window)
+        settled = not (tier == 'quick' and adjacent and n >= n_both)
+        if settled:
+            out.append((f'model:{compact}', script_to_steps(script, False), {'horizon_ms': horizon}))
+        if adjacent:
             out.append((f'model:{compact}/coalesced', script_to_steps(script, True), {'horizon_ms': horizon}))
     return out
